@@ -299,8 +299,8 @@ Lemma create_in_payload vis m ss pos t0 :
   match create_in vis m ss pos t0 with COk t' _ | CFault t' _ => ipayload t' = ipayload t0 end.
 Proof.
   destruct ss as [|s r]; [reflexivity|]. cbn [create_in].
-  destruct (d_step t0 m s ([(pos, t0)], None)) as [l o].
-  destruct l as [|x [|y l]]; destruct o as [f|]; try reflexivity.
+  destruct (d_step t0 m s ([(pos, t0)], None)) as [l o]. destruct o as [f|]; [reflexivity|].
+  destruct (visible_from vis pos l) as [|x [|y l']]; try reflexivity.
   - destruct pos; [reflexivity|]. destruct s as [a t ps]. destruct t; try reflexivity.
     destruct (derived_preds ps); [|reflexivity].
     destruct (create_in vis m r _ _); apply payload_insert_kid.
@@ -392,16 +392,36 @@ Ltac rw_step E :=
     match goal with |- context [d_step ?a ?b ?c ?d] =>
       replace (d_step a b c d) with rhs by (first [exact E | symmetry; exact E]) end end.
 
-Lemma create_finds vis m D : forall ss pos t0 t' p,
+Ltac rw_vis_in H E :=
+  match type of E with _ = ?rhs =>
+    match type of H with context [visible_from ?v ?p ?l] => replace (visible_from v p l) with rhs in H by (symmetry; exact E) end end.
+Ltac rw_vis E :=
+  match type of E with _ = ?rhs =>
+    match goal with |- context [visible_from ?v ?p ?l] => replace (visible_from v p l) with rhs by (symmetry; exact E) end end.
+(* under an ambient filter that lets tag nodes through, the candidates of an accepted step are all visible *)
+Lemma vis_sel vis m pr l ps pos kids : tags_visible vis ->
+  visible_from vis pos (map (fun ik : nat * itree => (pos ++ [fst ik], snd ik)) (sel (smatch m pr l ps) 0 kids))
+  = map (fun ik : nat * itree => (pos ++ [fst ik], snd ik)) (sel (smatch m pr l ps) 0 kids).
+Proof.
+  intro Hv. unfold visible_from. destruct pos; [reflexivity|].
+  apply filter_all_true. intros x Hx. apply in_map_iff in Hx as ([i k] & <- & Hin). cbn [snd].
+  apply Hv. apply sel_member_true in Hin. apply smatch_tag in Hin. exact Hin.
+Qed.
+Lemma visible_from_nil vis pos : visible_from vis pos [] = [].
+Proof. destruct pos; reflexivity. Qed.
+Lemma visible_from_incl vis pos l x : In x (visible_from vis pos l) -> In x l.
+Proof. unfold visible_from. destruct pos; [auto|]. intro H. apply filter_In in H. tauto. Qed.
+
+Lemma create_finds vis m D : forall ss pos t0 t' p, tags_visible vis ->
   forallb (step_good m) ss = true -> is_tag_t t0 = true -> create_in vis m ss pos t0 = COk t' p ->
   exists sub q', fold_left (fun acc s => d_step D m s acc) ss ([(pos, t')], None) = ([(p, sub)], None) /\ p = pos ++ q'.
 Proof.
-  induction ss as [|s r IH]; intros pos t0 t' p G Ht H.
+  induction ss as [|s r IH]; intros pos t0 t' p Hv G Ht H.
   - cbn in H. inversion H; subst. exists t', []. rewrite app_nil_r. split; reflexivity.
   - cbn [forallb] in G. apply andb_prop in G as [Gs Gr].
     destruct s as [a t ps]. destruct a; try discriminate Gs. destruct t as [pr l| | |]; try discriminate Gs.
     cbn [create_in] in H. pose proof (good_step_single t0 m pr l ps (pos, t0) Gs) as E0. rewrite children_filter in E0.
-    rw_step_in H E0. clear E0.
+    rw_step_in H E0. clear E0. cbn beta iota in H. pose proof (vis_sel vis m pr l ps pos (tkids t0) Hv) as Ev. rw_vis_in H Ev. clear Ev.
     destruct (sel (smatch m pr l ps) 0 (tkids t0)) as [|[j k] [|? ?]] eqn:ES; cbn [map fst snd] in H; [| |discriminate H].
     + (* no candidate: a new element *)
       destruct pos as [|a0 pos']; [discriminate H|].
@@ -411,7 +431,7 @@ Proof.
       inversion H; subst; clear H.
       pose proof (create_in_payload vis m r ((a0 :: pos') ++ [insert_index vis (tkids t0)]) (new_node m t0 pr l ds)) as Hp.
       rewrite Ec in Hp.
-      destruct (IH _ (new_node m t0 pr l ds) _ _ Gr eq_refl Ec) as (sub & q' & Hf & Hq).
+      destruct (IH _ (new_node m t0 pr l ds) _ _ Hv Gr eq_refl Ec) as (sub & q' & Hf & Hq).
       exists sub, (insert_index vis (tkids t0) :: q'). split; [|rewrite Hq, <- app_assoc; reflexivity].
       cbn [fold_left].
       pose proof (good_step_single D m pr l ps (a0 :: pos', insert_kid t0 (insert_index vis (tkids t0)) n') Gs) as E1.
@@ -428,7 +448,7 @@ Proof.
       pose proof (create_in_payload vis m r (pos ++ [j]) k) as Hp. rewrite Ec in Hp.
       assert (Fk' : smatch m pr l ps k' = true) by (rewrite (smatch_payload m pr l ps k' k Hp); exact Fk).
       destruct (sel_update _ _ _ _ _ k' ES Fk') as (i & Hj & Hn & Hs). cbn in Hj. subst j.
-      destruct (IH _ _ _ _ Gr (smatch_tag _ _ _ _ _ Fk) Ec) as (sub & q' & Hf & Hq).
+      destruct (IH _ _ _ _ Hv Gr (smatch_tag _ _ _ _ _ Fk) Ec) as (sub & q' & Hf & Hq).
       exists sub, (i :: q'). split; [|rewrite Hq, <- app_assoc; reflexivity].
       cbn [fold_left].
       pose proof (good_step_single D m pr l ps (pos, set_kid t0 i k') Gs) as E1.
@@ -451,11 +471,11 @@ Definition ctx_nd (root : itree) (ctx : npath) : nd := (ctx, opt_default (docnod
 
 (* relative paths *)
 Lemma foc_finds_relative vis root m ss q t0 t' p :
-  forallb (step_good m) ss = true -> subtree root q = Some t0 -> is_tag_t t0 = true ->
+  tags_visible vis -> forallb (step_good m) ss = true -> subtree root q = Some t0 -> is_tag_t t0 = true ->
   foc vis root m m [LocationPath false ss] (0 :: q) = FocOk t' p ->
   exists n, eval (docnode t') m [LocationPath false ss] (ctx_nd t' (0 :: q)) = Ok [n] /\ fst n = p.
 Proof.
-  intros G Hs Ht. unfold foc.
+  intros Hv G Hs Ht. unfold foc.
   destruct (negb (locatable [LocationPath false ss])); [discriminate|].
   assert (Ec : ctx_nd root (0 :: q) = (0 :: q, t0)) by (unfold ctx_nd; cbn; rewrite Hs; reflexivity).
   fold (ctx_nd root (0 :: q)).
@@ -463,7 +483,7 @@ Proof.
   - (* creation *)
     rewrite Hs. cbn [opt_default]. destruct (pre_check m ss); [discriminate|].
     destruct (create_in vis m ss (0 :: q) t0) as [t0' p'|t0' f] eqn:Ecr; [|discriminate]. intro H. inversion H; subst; clear H.
-    destruct (create_finds vis m (docnode (replace_at root q t0')) ss (0 :: q) t0 t0' p G Ht Ecr) as (sub & q' & Hf & Hq).
+    destruct (create_finds vis m (docnode (replace_at root q t0')) ss (0 :: q) t0 t0' p Hv G Ht Ecr) as (sub & q' & Hf & Hq).
     exists (p, sub). split; [|reflexivity].
     assert (Ec' : ctx_nd (replace_at root q t0') (0 :: q) = (0 :: q, t0')).
     { unfold ctx_nd. cbn. rewrite (subtree_replace_at q root t0 t0' Hs). reflexivity. }
@@ -479,11 +499,11 @@ Lemma sel_doc f root : sel f 0 (tkids (docnode root)) = if f root then [(0, root
 Proof. unfold sel. cbn. destruct (f root); reflexivity. Qed.
 
 Lemma foc_finds_absolute vis root m s r ctx t' p :
-  forallb (step_good m) (s :: r) = true ->
+  tags_visible vis -> forallb (step_good m) (s :: r) = true ->
   foc vis root m m [LocationPath true (s :: r)] ctx = FocOk t' p ->
   exists n, eval (docnode t') m [LocationPath true (s :: r)] (ctx_nd t' ctx) = Ok [n] /\ fst n = p.
 Proof.
-  intros G. unfold foc.
+  intros Hv G. unfold foc.
   destruct (negb (locatable [LocationPath true (s :: r)])); [discriminate|].
   fold (ctx_nd root ctx).
   destruct (eval (docnode root) m [LocationPath true (s :: r)] (ctx_nd root ctx)) as [[|x [|y l]]|f] eqn:Ev; try discriminate.
@@ -493,13 +513,11 @@ Proof.
     cbn [create_in].
     pose proof (good_step_single (docnode root) m pr l ps ([], docnode root) Gs) as E0.
     rewrite children_filter, sel_doc in E0.
-    match goal with |- context [d_step ?a ?b ?c ?d] => replace (d_step a b c d) with
-      (map (fun ik : nat * itree => ([] ++ [fst ik], snd ik)) (if smatch m pr l ps root then [(0, root)] else []), @None fault)
-      by (symmetry; exact E0) end.
+    rw_step E0. cbn beta iota. cbn [visible_from].
     destruct (smatch m pr l ps root) eqn:Fr; cbn [map fst snd app]; [|discriminate].
     destruct (create_in vis m r [0] root) as [k' p'|k' f] eqn:Ecr; [|discriminate]. intro H. inversion H; subst; clear H.
     cbn [last set_kid docnode update_nth doc_root tkids].
-    destruct (create_finds vis m (docnode k') r [0] root k' p Gr (smatch_tag _ _ _ _ _ Fr) Ecr) as (sub & q' & Hf & Hq).
+    destruct (create_finds vis m (docnode k') r [0] root k' p Hv Gr (smatch_tag _ _ _ _ _ Fr) Ecr) as (sub & q' & Hf & Hq).
     exists (p, sub). split; [|reflexivity].
     pose proof (create_in_payload vis m r [0] root) as Hp. rewrite Ecr in Hp.
     pose proof (good_step_single (docnode k') m pr l ps ([], docnode k') Gs) as E1.
@@ -568,21 +586,6 @@ Proof. unfold step_good. intro G. destruct (derived_preds ps); [eauto|]. rewrite
 Lemma tkids_new_node m t0 pr l ds : tkids (new_node m t0 pr l ds) = [].
 Proof. reflexivity. Qed.
 
-(* on a childless element every remaining step creates: no exception is possible any more *)
-Lemma chain_no_fault vis m : forall r pos n, forallb (step_good m) r = true -> tkids n = [] -> pos <> [] ->
-  exists n' p, create_in vis m r pos n = COk n' p.
-Proof.
-  induction r as [|s r IH]; intros pos n G Hk Hp; [cbn; eauto|].
-  cbn [forallb] in G. apply andb_prop in G as [Gs Gr].
-  destruct s as [a t ps]. destruct a; try discriminate Gs. destruct t as [pr l| | |]; try discriminate Gs.
-  cbn [create_in]. pose proof (good_step_single n m pr l ps (pos, n) Gs) as E0. rewrite children_filter, Hk in E0. cbn in E0.
-  rw_step E0. destruct pos as [|a0 pos']; [congruence|].
-  destruct (good_derived m pr l ps Gs) as (ds & Hd). rewrite Hd.
-  destruct (IH ((a0 :: pos') ++ [insert_index vis (tkids n)]) (new_node m n pr l ds) Gr eq_refl) as (n' & p & Hc).
-  { destruct pos'; discriminate. }
-  rewrite Hc. eauto.
-Qed.
-
 Lemma update_nth_same {A} (f : A -> A) : forall l i x, nth_error l i = Some x -> f x = x -> update_nth f i l = l.
 Proof. induction l as [|y l IH]; intros [|i] x H E; cbn in *; try discriminate; [inversion H; subst; rewrite E; reflexivity|f_equal; eauto]. Qed.
 Lemma set_kid_same t i k : nth_error (tkids t) i = Some k -> set_kid t i k = t.
@@ -591,26 +594,6 @@ Proof.
   rewrite (update_nth_same (fun _ : itree => k) kids i k H eq_refl). reflexivity.
 Qed.
 
-Lemma create_unchanged vis m : forall ss pos t0 t' f,
-  forallb (step_good m) ss = true -> create_in vis m ss pos t0 = CFault t' f -> t' = t0.
-Proof.
-  induction ss as [|s r IH]; intros pos t0 t' f G H; [discriminate H|].
-  cbn [forallb] in G. apply andb_prop in G as [Gs Gr].
-  destruct s as [a t ps]. destruct a; try discriminate Gs. destruct t as [pr l| | |]; try discriminate Gs.
-  cbn [create_in] in H. pose proof (good_step_single t0 m pr l ps (pos, t0) Gs) as E0. rewrite children_filter in E0.
-  rw_step_in H E0. clear E0.
-  destruct (sel (smatch m pr l ps) 0 (tkids t0)) as [|[j k] [|? ?]] eqn:ES; cbn [map fst snd] in H.
-  - destruct pos as [|a0 pos']; [inversion H; reflexivity|].
-    destruct (derived_preds ps) as [ds|] eqn:Ed; [|inversion H; reflexivity].
-    destruct (chain_no_fault vis m r ((a0 :: pos') ++ [insert_index vis (tkids t0)]) (new_node m t0 pr l ds) Gr eq_refl) as (n' & p & Hc).
-    { destruct pos'; discriminate. }
-    rewrite Hc in H. discriminate H.
-  - destruct (create_in vis m r (pos ++ [j]) k) as [k' p'|k' f'] eqn:Ec; [discriminate H|]. inversion H; subst; clear H.
-    rewrite (IH _ _ _ _ Gr Ec). rewrite last_last.
-    assert (Fk : smatch m pr l ps k = true) by (apply (sel_member_true _ 0 (tkids t0) j); rewrite ES; left; reflexivity).
-    destruct (sel_update _ _ _ _ _ k ES Fk) as (i & Hj & Hn & _). cbn in Hj. subst j. apply set_kid_same. exact Hn.
-  - inversion H. reflexivity.
-Qed.
 
 (* ================================================================ C15_minimal *)
 (* a chain of new elements: each has no child or exactly one, which is again such a chain *)
@@ -631,7 +614,7 @@ Proof.
   - cbn [forallb] in G. apply andb_prop in G as [Gs Gr].
     destruct s as [a t ps]. destruct a; try discriminate Gs. destruct t as [pr l| | |]; try discriminate Gs.
     cbn [create_in] in H. pose proof (good_step_single n m pr l ps (pos, n) Gs) as E0. rewrite children_filter, Hk in E0. cbn in E0.
-    rw_step_in H E0. destruct pos as [|a0 pos']; [congruence|].
+    rw_step_in H E0. cbn beta iota in H. rewrite visible_from_nil in H. destruct pos as [|a0 pos']; [congruence|].
     destruct (derived_preds ps) as [ds|]; [|discriminate H].
     destruct (create_in vis m r ((a0 :: pos') ++ [insert_index vis (tkids n)]) (new_node m n pr l ds)) as [n2 p2|n2 f] eqn:Ec; [|discriminate H].
     inversion H; subst; clear H.
@@ -642,14 +625,14 @@ Proof.
     cbn. constructor. exact C2.
 Qed.
 
-Lemma create_grown vis m : forall ss pos t0 t' p, forallb (step_good m) ss = true -> is_tag_t t0 = true ->
+Lemma create_grown vis m : forall ss pos t0 t' p, tags_visible vis -> forallb (step_good m) ss = true -> is_tag_t t0 = true ->
   create_in vis m ss pos t0 = COk t' p -> grown t0 t'.
 Proof.
-  induction ss as [|s r IH]; intros pos t0 t' p G Ht H; [cbn in H; inversion H; constructor|].
+  induction ss as [|s r IH]; intros pos t0 t' p Hv G Ht H; [cbn in H; inversion H; constructor|].
   cbn [forallb] in G. apply andb_prop in G as [Gs Gr].
   destruct s as [a t ps]. destruct a; try discriminate Gs. destruct t as [pr l| | |]; try discriminate Gs.
   cbn [create_in] in H. pose proof (good_step_single t0 m pr l ps (pos, t0) Gs) as E0. rewrite children_filter in E0.
-  rw_step_in H E0. clear E0.
+  rw_step_in H E0. clear E0. cbn beta iota in H. pose proof (vis_sel vis m pr l ps pos (tkids t0) Hv) as Ev. rw_vis_in H Ev. clear Ev.
   destruct (sel (smatch m pr l ps) 0 (tkids t0)) as [|[j k] [|? ?]] eqn:ES; cbn [map fst snd] in H; [| |discriminate H].
   - destruct pos as [|a0 pos']; [discriminate H|].
     destruct (derived_preds ps) as [ds|]; [|discriminate H].
@@ -661,7 +644,7 @@ Proof.
     rewrite last_last.
     assert (Fk : smatch m pr l ps k = true) by (apply (sel_member_true _ 0 (tkids t0) j); rewrite ES; left; reflexivity).
     destruct (sel_update _ _ _ _ _ k ES Fk) as (i & Hj & Hn & _). cbn in Hj. subst j.
-    eapply grown_down; [exact Hn|]. eapply IH; eauto. eapply smatch_tag; eauto.
+    eapply grown_down; [exact Hn|]. eapply (IH _ _ _ _ Hv Gr); [eapply smatch_tag; eauto|exact Ec].
 Qed.
 
 (* ================================================================ foc level: minimal, and faults change nothing *)
@@ -678,11 +661,11 @@ Definition steps_good (m : nsmap) (e : xpath_expr) : bool :=
 
 (* what the tree is afterwards: the old tree, or the old tree with the subtree at the start node grown by one chain *)
 Lemma foc_minimal vis root m ab ss q t0 t' p :
-  forallb (step_good m) ss = true -> subtree root q = Some t0 -> is_tag_t t0 = true ->
+  tags_visible vis -> forallb (step_good m) ss = true -> subtree root q = Some t0 -> is_tag_t t0 = true ->
   foc vis root m m [LocationPath ab ss] (0 :: q) = FocOk t' p ->
   t' = root \/ (ab = false /\ exists t0', grown t0 t0' /\ t' = replace_at root q t0') \/ (ab = true /\ grown root t').
 Proof.
-  intros G Hs Ht. unfold foc. destruct (negb (locatable [LocationPath ab ss])); [discriminate|].
+  intros Hv G Hs Ht. unfold foc. destruct (negb (locatable [LocationPath ab ss])); [discriminate|].
   destruct (eval _ _ _ _) as [[|x [|y l]]|f]; try discriminate.
   - destruct ab.
     + destruct (pre_check m ss); [discriminate|].
@@ -691,12 +674,12 @@ Proof.
       destruct s as [a t ps]. destruct a; try discriminate Gs. destruct t as [pr l| | |]; try discriminate Gs.
       cbn [create_in].
       pose proof (good_step_single (docnode root) m pr l ps ([], docnode root) Gs) as E0. rewrite children_filter, sel_doc in E0.
-      rw_step E0. destruct (smatch m pr l ps root) eqn:Fr; cbn [map fst snd app]; [|discriminate].
+      rw_step E0. cbn beta iota. cbn [visible_from]. destruct (smatch m pr l ps root) eqn:Fr; cbn [map fst snd app]; [|discriminate].
       destruct (create_in vis m r [0] root) as [k' p'|k' f] eqn:Ecr; [|discriminate]. intro H. inversion H; subst; clear H.
-      right. right. split; [reflexivity|]. cbn. eapply create_grown; eauto. eapply smatch_tag; eauto.
+      right. right. split; [reflexivity|]. cbn. eapply (create_grown vis m r _ _ _ _ Hv Gr); [eapply smatch_tag; eauto|exact Ecr].
     + rewrite Hs. cbn [opt_default]. destruct (pre_check m ss); [discriminate|].
       destruct (create_in vis m ss (0 :: q) t0) as [t0' p'|t0' f] eqn:Ecr; [|discriminate]. intro H. inversion H; subst; clear H.
-      right. left. split; [reflexivity|]. exists t0'. split; [|reflexivity]. eapply create_grown; eauto.
+      right. left. split; [reflexivity|]. exists t0'. split; [|reflexivity]. eapply (create_grown vis m ss _ _ _ _ Hv G Ht Ecr).
   - intro H. inversion H. left. reflexivity.
 Qed.
 
@@ -716,7 +699,7 @@ Lemma chain_no_fault_loc vis m : forall r pos n, forallb loc_step r = true -> tk
 Proof.
   induction r as [|s r IH]; intros pos n G Hk Hp; [cbn; eauto|].
   cbn [forallb] in G. apply andb_prop in G as [Gs Gr]. destruct (loc_step_inv s Gs) as (pr & l & ps & -> & Lp).
-  cbn [create_in]. pose proof (childless_step n m (NameMatchTest pr l) ps pos n Hk) as E0. rw_step E0.
+  cbn [create_in]. pose proof (childless_step n m (NameMatchTest pr l) ps pos n Hk) as E0. rw_step E0. cbn beta iota. rewrite visible_from_nil.
   destruct pos as [|a0 pos']; [congruence|]. destruct (loc_preds_derived ps Lp) as (ds & ->).
   destruct (IH ((a0 :: pos') ++ [insert_index vis (tkids n)]) (new_node m n pr l ds) Gr eq_refl) as (n' & p & Hc).
   { destruct pos'; discriminate. }
@@ -770,7 +753,8 @@ Proof.
   cbn [forallb] in G. apply andb_prop in G as [Gs Gr]. destruct (loc_step_inv s Gs) as (pr & l & ps & -> & Lp).
   cbn [create_in] in H.
   destruct (d_step t0 m (LocationStep AxChild (NameMatchTest pr l) ps) ([(pos, t0)], None)) as [lst o] eqn:E.
-  destruct lst as [|x [|y lst]]; destruct o as [f0|]; try (inversion H; reflexivity).
+  destruct o as [f0|]; [inversion H; reflexivity|].
+  match type of H with context [visible_from ?v ?p ?l] => destruct (visible_from v p l) as [|x [|y lst']] eqn:Ef end; try (inversion H; reflexivity).
   - destruct pos as [|a0 pos']; [inversion H; reflexivity|].
     destruct (loc_preds_derived ps Lp) as (ds & Hd). rewrite Hd in H.
     destruct (chain_no_fault_loc vis m r ((a0 :: pos') ++ [insert_index vis (tkids t0)]) (new_node m t0 pr l ds) Gr eq_refl) as (n' & p & Hc).
@@ -778,7 +762,9 @@ Proof.
     rewrite Hc in H. discriminate H.
   - destruct (create_in vis m r (fst x) (snd x)) as [k' p'|k' f'] eqn:Ec; [discriminate H|]. inversion H; subst; clear H.
     rewrite (IH _ _ _ _ Gr Ec).
-    pose proof (child_step_incl _ _ _ _ _ _ _ E x (or_introl eq_refl)) as Hin.
+    assert (Hx : In x lst).
+    { apply (visible_from_incl vis pos). rewrite Ef. left. reflexivity. }
+    pose proof (child_step_incl _ _ _ _ _ _ _ E x Hx) as Hin.
     destruct (children_In pos t0 x Hin) as (i & Hp & Hn). rewrite Hp, last_last. apply set_kid_same. exact Hn.
 Qed.
 
